@@ -134,9 +134,12 @@ def main(chk):
     n2 = k2 - (len(shape) + 2) if use_neg else k2
     if use_neg:
       key += ':negative-axes'
+    pname = None if idx % 5 in (3, 4) else 'layers'      # PARTITION_NAME: None = the stacked axis is left unpartitioned
+    if pname is None:
+      key += ':partition_name=None'
     try:
       create = nnx.vmap(lambda _: M(shape, names), in_axes=0, out_axes=n1, axis_size=5,
-                        transform_metadata={nnx.PARTITION_NAME: 'layers'})
+                        transform_metadata={nnx.PARTITION_NAME: pname})
       if outer != 'none':
         create2 = nnx.vmap(lambda _: create(jnp.zeros(5)), in_axes=0, out_axes=n2, axis_size=7,
                            transform_metadata={nnx.PARTITION_NAME: 'batch'})
@@ -154,15 +157,15 @@ def main(chk):
       if outer == 'none':
         if idx % 2:
           nnx.vmap(step, in_axes=(nnx.StateAxes({nnx.Param: n1}), 0), out_axes=0,
-                   transform_metadata={nnx.PARTITION_NAME: 'layers'})(m, jnp.zeros(5))
+                   transform_metadata={nnx.PARTITION_NAME: pname})(m, jnp.zeros(5))
         else:
           nnx.scan(lambda mm, c, x: (c, step(mm, x)), in_axes=(nnx.StateAxes({nnx.Param: n1}), nnx.Carry, 0), out_axes=(nnx.Carry, 0),
-                   transform_metadata={nnx.PARTITION_NAME: 'layers'})(m, jnp.zeros(()), jnp.zeros(5))
+                   transform_metadata={nnx.PARTITION_NAME: pname})(m, jnp.zeros(()), jnp.zeros(5))
     except Exception as e:
       chk.violation(key, f'raised {type(e).__name__}: {str(e)[:200]}', case)
       continue
     chk.count(key)
-    want_names = tuple(nm(x) for x in case['full']['names'])
+    want_names = tuple((pname if x == 'layers' else nm(x)) for x in case['full']['names'])
     want_shape = tuple(case['full']['shape'])
     if got_shape != want_shape or got_names != want_names:
       chk.violation(key, f'sharding {got_names} for value shape {got_shape}; specification {want_names} / {want_shape}', case)
